@@ -48,12 +48,12 @@ type EWCase struct {
 	// BSame: the second operand is the first one (the same *Dense passed twice); B repeats A's description
 	BSame bool `json:"bSame,omitempty"`
 	// AlsoUnsafe: UseUnsafe() is passed together with WithReuse (the reuse tensor is still the destination)
-	AlsoUnsafe bool    `json:"alsoUnsafe,omitempty"`
+	AlsoUnsafe bool `json:"alsoUnsafe,omitempty"`
 	// SafeOpt: safe mode asked for explicitly with UseSafe() instead of by passing no option
-	SafeOpt bool `json:"safeOpt,omitempty"`
-	Tol        float64 `json:"-"`
-	scTensor   *tensor.Dense
-	scVal      interface{}
+	SafeOpt  bool    `json:"safeOpt,omitempty"`
+	Tol      float64 `json:"-"`
+	scTensor *tensor.Dense
+	scVal    interface{}
 }
 
 func (c *EWCase) NTKey() string {
@@ -777,7 +777,9 @@ func inF25(c *EWCase) bool {
 	// (scalar on the left: the kernel walks a compact copy with the operand's own offsets - a panic when the
 	// operand is a view with gaps; a lazily transposed whole tensor, whose offsets are a permutation of the
 	// copy's, is computed correctly and lies outside the region)
-	return c.Form == "ST" && !c.A.L.IsContig() && !c.A.L.onlyTransposed()
+	// (with a MASKED operand the validity bits are looked up by the operand's offsets as well, while the compact
+	// copy is in logical order: wrong values at valid positions for every non-contiguous layout)
+	return c.Form == "ST" && !c.A.L.IsContig() && (!c.A.L.onlyTransposed() || c.A.Mask != nil)
 }
 
 // inF39 is the region of known finding F39: float32/float64 division with a
